@@ -1293,6 +1293,11 @@ func (pt ProvidedType) Field() *Field {
 // bindShouldUsePointer loads the wire package the user is importing from their
 // injector. The call is a wire marker function call.
 func bindShouldUsePointer(info *types.Info, call *ast.CallExpr) bool {
+	if id, ok := call.Fun.(*ast.Ident); ok {
+		// Bind called through a dot import of the wire package.
+		obj := info.ObjectOf(id)
+		return obj != nil && obj.Pkg() != nil && obj.Pkg().Scope().Lookup("bindToUsePointer") != nil
+	}
 	// These type assertions should not fail, otherwise panic.
 	fun := call.Fun.(*ast.SelectorExpr)                 // wire.Bind
 	pkgName := fun.X.(*ast.Ident)                       // wire
